@@ -703,3 +703,53 @@ def who_may_set_signals(ctx: Ctx):
                          'ignored or masked there is lost, and the previous handler may not be restored on every path')
     if n < 1:
         raise AnalysisError('no signal.signal call found in the package (the worker entry is expected to ignore SIGINT)')
+
+
+@rule('C14.WHO-MAY-CANCEL', ['C14', 'C10', 'C11'])
+def who_may_cancel(ctx: Ctx):
+    """runner.cancel() and runner.stop() are called from the KeyboardInterrupt handlers of TaskCoordinator.run only (close()
+    belongs to the finally).  In particular the function that consumes outcomes - which is also the body of the drain after the
+    first Ctrl-C - never cancels, stops or raises an error of its own: a deadline, a retry or a budget check placed there turns
+    a graceful drain into a kill, or surfaces another exception than the KeyboardInterrupt."""
+    run = ctx.P.func('lab.TaskCoordinator.run')
+    found = _ki_handlers(ctx, run)
+    targets = {f.qualname for name in ('cancel', 'stop') for f in roles.impls(ctx, roles.RUNNER, name)}
+    n = 0
+    for fn in ctx.P.all_functions():
+        if fn.module.name.startswith(f'{PKG}.runners'):
+            continue
+        for call in calls_in(fn.node):
+            if not (set(ctx.P.resolve_call(call, fn, by_name=False)) & targets):
+                continue
+            if not (isinstance(call.func, ast.Attribute) and call.func.attr in ('cancel', 'stop')):
+                continue
+            n += 1
+            ok = False
+            if found is not None and fn.qualname == run.qualname:
+                t1, h1, t2, h2 = found
+                ok = any(x is call for x in ast.walk(h1)) or any(x is call for x in ast.walk(h2))
+            yield ctx.ob('C14.WHO-MAY-CANCEL', ok, fn, call, f'runner.{call.func.attr}() inside a KeyboardInterrupt handler of run()',
+                         '' if ok else f'`{src(call)[:50]}` cancels / stops tasks outside the interrupt handlers of TaskCoordinator.run: running tasks are '
+                         'killed (or pending ones dropped) without a Ctrl-C, or during the graceful drain')
+    # the consumer function raises nothing of its own besides the unexpected-outcome-type guard
+    for cl in roles.consumer_loops(ctx):
+        raises = [r for r in walk_local(cl.fn.node) if isinstance(r, ast.Raise) and r.exc is not None]
+        inside = [r for r in raises if any(x is r for x in ast.walk(cl.loop))]
+        outside = [r for r in raises if r not in inside]
+        bad = outside
+        for r in inside:
+            c = None
+            try:
+                from ..engine import cond_in_loop, formula_of
+                from ..formula import implies, f_not, f_or
+                c = cond_in_loop(ctx, cl.fn, cl.loop, r)
+                known = f_or(formula_of(ctx, cl.fn, f'isinstance({cl.res_var}, BaseException)'), formula_of(ctx, cl.fn, f'isinstance({cl.res_var}, ResultMeta)'))
+                if not implies(c, f_not(known)):
+                    bad.append(r)
+            except Exception:
+                bad.append(r)
+        yield ctx.ob('C14.WHO-MAY-CANCEL', not bad, cl.fn, bad[0] if bad else cl.loop, 'the outcome consumer raises nothing of its own',
+                     '' if not bad else f'`{src(bad[0])[:60]}` raises from the function that also drains after the first Ctrl-C: run_tasks can end with that '
+                     'error instead of the KeyboardInterrupt, leaving running tasks behind')
+    if n < 2:
+        raise AnalysisError(f'only {n} runner.cancel()/stop() calls found outside the runners')
